@@ -34,6 +34,10 @@ def rand_td(rng):
         s = rng.randint(MINS, MAXS)
     else:
         s = rng.choice([MINS, MAXS, MINS + 1, MAXS - 1, 0, -1])
+    if rng.random() < 0.15:
+        # a multiple of a unit (in the floor-seconds representation), give or take a second
+        u = rng.choice([60, 3600, 86400, 604800])
+        s = rng.randint(-2000, 2000) * u + rng.choice([-1, 0, 0, 1])
     n = rng.choice([0, 1, 999999999, 500000000, rng.randint(0, G - 1), rng.randint(0, G - 1), rng.randint(0, 999) * 1000000])
     if not valid(s, n):
         return [0, n]
@@ -54,6 +58,17 @@ def cases(tier, rng):
     for op in ('td.millis', 'td.micros', 'td.nanos'):
         for z in around([0, 1, -1, 999, 1000, -999, -1000, 10**6, -10**6, G, -G, I64_MAX, I64_MIN, -I64_MAX, 10**15 + 7, -10**15 - 7], lo=I64_MIN, hi=I64_MAX):
             yield case_line(op, z)
+    # accessors at every unit boundary: +-k units, one second / one nanosecond either side (the
+    # floor-seconds representation makes negative values just short of a unit multiple special)
+    for u in (1, 60, 3600, 86400, 604800, 1000, 1000000):
+        for k in (1, 2, 3, 7, 52, 1000):
+            for sgn in (1, -1):
+                for ds in (-1, 0, 1):
+                    for nn in (0, 1, 500000000, G - 1):
+                        s0 = sgn * k * u + ds
+                        if valid(s0, nn):
+                            for op in ('td.acc', 'td.neg', 'td.abs', 'td.tostd', 'td.disp'):
+                                yield case_line(op, [s0, nn])
     # accessors, unary ops, display
     for d in lat:
         for op in ('td.acc', 'td.neg', 'td.abs', 'td.tostd', 'td.disp'):
